@@ -106,7 +106,11 @@ class SpotDiagram:
         Returns:
             centroid (List): centroid for each field in the data.
         """
-        norm_index = self.optic.wavelengths.primary_index
+        # reference: the primary wavelength within the wavelengths in use
+        wavelengths = list(self.wavelengths)
+        primary = self.optic.primary_wavelength
+        norm_index = wavelengths.index(primary) if primary in wavelengths \
+            else 0
         centroid = []
         for field_data in self.data:
             centroid_x = np.mean(field_data[norm_index][0])
